@@ -60,6 +60,11 @@ func (sv *signatureVerifier) VerifySignature(credentialToVerify vc.VerifiableCre
 		if err = jsonld.AllFieldsDefined(sv.jsonldManager.DocumentLoader(), credentialJSON); err != nil {
 			return newVerificationError("credential contains members that are not covered by the signature: %w", err)
 		}
+		// a JSON-LD context that is embedded in the credential is not part of the signed dataset either,
+		// but it changes which members make up that dataset (it can hide or swap the members the node reads)
+		if hasEmbeddedContext(credentialJSON) {
+			return newVerificationError("credential contains an embedded JSON-LD context, which is not covered by the signature")
+		}
 		return nil
 	case vc.JWTCredentialProofFormat:
 		return sv.jwtSignature(credentialToVerify.Raw(), credentialToVerify.Issuer.String(), validateAt)
@@ -171,4 +176,34 @@ func (sv *signatureVerifier) resolveSigningKey(kid string, issuer string, metada
 		kid += "#0"
 	}
 	return sv.keyResolver.ResolveKeyByID(kid, metadata, resolver.NutsSigningKeyType)
+}
+
+// hasEmbeddedContext returns true if the JSON document contains an "@context" member anywhere but at the top level.
+// The proof is not looked at: it is not part of the document that is signed.
+func hasEmbeddedContext(document []byte) bool {
+	var members map[string]interface{}
+	if json.Unmarshal(document, &members) != nil {
+		return false
+	}
+	delete(members, "@context")
+	delete(members, "proof")
+	return containsContext(members)
+}
+
+func containsContext(value interface{}) bool {
+	switch v := value.(type) {
+	case map[string]interface{}:
+		for name, member := range v {
+			if name == "@context" || containsContext(member) {
+				return true
+			}
+		}
+	case []interface{}:
+		for _, element := range v {
+			if containsContext(element) {
+				return true
+			}
+		}
+	}
+	return false
 }
